@@ -294,13 +294,15 @@ for _op, _nm in (('|', 'or'), ('^', 'xor'), ('&', 'and')):
 # ------------------------------------------------------------------ negation over plain types (their converters raise bare exceptions)
 from decimal import Decimal  # noqa: E402
 
-RAW = [('int', int), ('float', float), ('Decimal', Decimal), ('str', str), ('bool', bool), ('list', list), ('dict', dict)]
+from typing import Any as _Any  # noqa: E402
+
+RAW = [('int', int), ('float', float), ('Decimal', Decimal), ('str', str), ('bool', bool), ('list', list), ('dict', dict), ('Any', _Any)]
 RAW_X = [0, 5, -3, 2.5, float('inf'), float('-inf'), float('nan'), 10 ** 400, 'abc', '7', '', None, [1], {'a': 1}, b'x', Decimal('NaN'),
          Decimal('Infinity'), object]
 
 
 @ob('negation-raw', marks=['accept', 'reject'], budget=(60, 200),
-    bounds='Not(T) for plain types T in {int, float, Decimal, str, bool, list, dict} and AllOf(float, Not(int)); x picked from 18 values '
+    bounds='Not(T) for plain types T in {int, float, Decimal, str, bool, list, dict, Any} (Not(Any) rejects everything) and AllOf(float, Not(T)); x picked from 18 values '
            'incl. +-inf, nan, 10**400, Decimal NaN / Infinity: accepts exactly when T alone rejects (whatever exception the converter '
            'raises), returns the input unchanged, and only ParseError escapes')
 def negation_raw(V):
